@@ -27,8 +27,7 @@ for Q in $P "$@"; do
   grep -h "VIOLATION\|failed:\|UNDECIDED" $OUT/.check_$Q | head -12
   echo "check $Q rc=$rc"
   RES="$RES $Q:$rc"
-  cp evidence/$Q.json $OUT/.evidence_$Q.json 2>/dev/null
-  git checkout -q -- evidence/$Q.json 2>/dev/null
+  cp replays/evidence-scratch/$Q.json $OUT/.evidence_$Q.json 2>/dev/null
 done
 rm -rf $S
 echo "RESULT $P $N demo0=$d0 demo1=$d1 tests='$t' checks=$RES"
